@@ -33,7 +33,75 @@ def tables():
         "/-- number of call sites per level found by the scan (reach of the scan, not used by theorems) -/",
         "def diagCallSites : List (String × Nat) := ["
         + ", ".join(f"({lstr(l)}, {per_level[l]})" for l in LEVELS) + "]",
-    ] + scope_tables()
+    ] + scope_tables() + current_file_tables(calls)
+
+
+SITE_FUNCTIONS = (("rattr/analyser/file.py", "parse_and_analyse_imports"),
+                  ("rattr/results/_find_call_target.py", "resolve_import"))
+
+
+def current_file_tables(calls):
+    """Round 4: where `state.current_file` can change (every `with enter_file(..)` item, every other mention of
+    `enter_file`, every store to an attribute `current_file`), and the level-function calls of the two
+    import-following loops in source order with their explicit `badness` argument."""
+    import ast
+    from tables.diagscan import source_files
+
+    def q(t):
+        return "(" + ", ".join(lstr(x) for x in t) + ")"
+
+    sc = scopescan.scopes()
+    enters = [(s["file"], s["function"], s["arg"]) for s in sc
+              if s["kind"] == "with" and s["what"].split(".")[-1] == "enter_file"]
+    writers, other = [], []
+    for rel, src in source_files():
+        tree = ast.parse(src)
+        with_callees = set()
+        for node in ast.walk(tree):
+            if isinstance(node, (ast.With, ast.AsyncWith)):
+                for item in node.items:
+                    if isinstance(item.context_expr, ast.Call):
+                        with_callees.add(id(item.context_expr.func))
+        stack = []
+
+        def visit(node):
+            named = isinstance(node, (ast.FunctionDef, ast.AsyncFunctionDef, ast.ClassDef))
+            if named:
+                stack.append(node.name)
+            where = ".".join(stack) if stack else "<module>"
+            if isinstance(node, ast.Attribute) and node.attr == "current_file" and isinstance(node.ctx, (ast.Store, ast.Del)):
+                writers.append((rel, where))
+            if isinstance(node, ast.Call) and isinstance(node.func, ast.Name) and node.func.id in ("setattr", "delattr") \
+                    and len(node.args) >= 2 and not (isinstance(node.args[1], ast.Constant) and node.args[1].value != "current_file"):
+                writers.append((rel, where + ":" + node.func.id))
+            if ((isinstance(node, ast.Name) and node.id == "enter_file") or (isinstance(node, ast.Attribute) and node.attr == "enter_file")) \
+                    and id(node) not in with_callees:
+                other.append((rel, where))
+            if isinstance(node, (ast.FunctionDef, ast.AsyncFunctionDef)) and node.name == "enter_file" and rel != "rattr/config/state.py":
+                other.append((rel, where))
+            for ch in ast.iter_child_nodes(node):
+                visit(ch)
+            if named:
+                stack.pop()
+
+        visit(tree)
+    if ("rattr/config/state.py", "enter_file") not in writers:
+        raise ValueError("the scan no longer finds the stores of enter_file itself")
+    site_calls = [(f, fn, lvl, b or "") for f, fn, lvl, b in calls if (f, fn) in SITE_FUNCTIONS]
+    for key in SITE_FUNCTIONS:
+        if not any((f, fn) == key for f, fn, _, _ in site_calls):
+            raise ValueError(f"no diagnostic call found in {key}")
+    return [
+        "/-- every `with enter_file(..)` item of rattr/**.py: (file, function, argument) -/",
+        "def enterFileSites : List (String × String × String) := [\n  " + ",\n  ".join(q(e) for e in enters) + "]",
+        "/-- every other mention of `enter_file` (a call outside a `with` item, an alias, a second definition): (file, function) -/",
+        "def enterFileOtherUses : List (String × String) := [" + ", ".join(q(e) for e in other) + "]",
+        "/-- every store to an attribute `current_file` (and every setattr / delattr with a non-constant or that name): (file, function) -/",
+        "def currentFileWriters : List (String × String) := [" + ", ".join(q(e) for e in writers) + "]",
+        "/-- the level-function calls of the import walk's loop and of the simplifier's import resolution, in source order:"
+        " (file, function, level, explicit badness expression or \"\") -/",
+        "def siteCalls : List (String × String × String × String) := [\n  " + ",\n  ".join(q(e) for e in site_calls) + "]",
+    ]
 
 
 def scope_tables():
